@@ -228,6 +228,20 @@ def check(run, M, tier):
                M.func("sigpy.fourier.toeplitz_psf").loc())
     else:
         _cmp(run, M, "U4", "sigpy.fourier.toeplitz_psf", REF_PSF, loop_hook=havoc_loop)
+    # U6 the transforms work on private copies
+    run.rule("U6", "nufft, nufft_adjoint and toeplitz_psf never write through their array arguments (apodisation and scaling act on a private copy): a second transform of the same array sees the same data")
+    from ..effects import Effects
+    _eff = Effects(M)
+    for q_ in ("sigpy.fourier.nufft", "sigpy.fourier.nufft_adjoint", "sigpy.fourier.toeplitz_psf"):
+        f_ = M.func(q_)
+        sm_ = _eff.of(q_)
+        hit = sorted(p_ for p_ in sm_.mut if p_ in ("input", "coord"))
+        if not hit:
+            run.ok("U6", q_, "no write reaches input or coord", f_.loc())
+        for p_ in hit:
+            for node_, why_ in sm_.detail.get(("P", p_), [])[:1]:
+                run.bad("U6", q_, f_.loc(node_), "%s modifies the caller's array `%s` in place (%s): transforming the same array again (another trajectory, the Gram operator, a "
+                        "solver iterate) starts from already apodised/scaled data" % (q_, p_, why_), stmt="U6:%s:%s" % (q_, p_))
     # U5 the interpolation kernel nufft relies on (anchor: Kaiser-Bessel kernel via the polynomial I0 approximation)
     from .c07 import check_kernel_functions
     check_kernel_functions(run, M, "U5", names=("_kaiser_bessel_kernel",))
